@@ -91,7 +91,15 @@ def det_rename_moves(f):
     return bool(loc(a)) and loc(a) != loc(b)
 
 
-DETECTORS = {"rename_moves": det_rename_moves, "rerun_changes": det_rerun_changes, "varies": det_varies, "false_claim": det_false_claim, "hang": det_hang, "lint_count": det_lint_count,
+def det_split_differs(f):
+    """the include tree of the witness gets other diagnostics (titles) than its pasted text"""
+    files = [tuple(x) for x in f["files"]]
+    a, b = run_lines_isolated(RVH_DEBUG, [pipe_req("run", files), pipe_req("run", [("m.s", f["flat"])])])
+    t = lambda blk: sorted(re.search(r" title=(\S+)", l).group(1) for l in blk if l.startswith("RUN "))
+    return t(a) != t(b)
+
+
+DETECTORS = {"split_differs": det_split_differs, "rename_moves": det_rename_moves, "rerun_changes": det_rerun_changes, "varies": det_varies, "false_claim": det_false_claim, "hang": det_hang, "lint_count": det_lint_count,
              "cfgerr": det_cfgerr, "rerun_changes_udef": det_rerun_changes_udef}
 
 
